@@ -256,57 +256,12 @@ def rule_tree_geometry(ctx):
         if lower_when_set != child_lower_when_set:
             ctx.report('R15.3', 'octant:%s:side' % comp, where, 'bit set means p.%s %s node.%s but the child with that bit is placed on the %s side' % (comp, op, comp, 'lower' if child_lower_when_set else 'upper'))
         samples.append('%s: bit %d set iff p.%s %s node.%s; child centre parent.%s %s w/4' % (comp, bit, comp, op, comp, comp, '-' if child_lower_when_set else '+'))
-    # R15.4 root box index: mixed radix well formed and the same (i,j,k) in both places
-    f = tp.func('reb_get_rootbox_for_particle')
-    lets = {}
-    for d in walk(cfront.body(f)):
-        if d.get('kind') == 'VarDecl' and 'init' in d:
-            init = [c for c in d.get('inner', []) if c.get('kind') not in ('FullComment',)]
-            lets[d['name']] = render(init[-1]).replace(' ', '')
-    anchor(all(k in lets for k in ('i', 'j', 'k', 'index')), 'reb_get_rootbox_for_particle defines i, j, k, index')
-    rng = {}
-    for v, comp in (('i', 'x'), ('j', 'y'), ('k', 'z')):
-        n += 1
-        m = re.search(r'%r\.N_root_([xyz])\)?$', lets[v])
-        where = 'src/particle.c reb_get_rootbox_for_particle'
-        if not m:
-            ctx.report('R15.4', 'rootbox:%s:range' % v, where, 'root box coordinate %s is not reduced modulo a root box count: %s' % (v, lets[v]))
-            continue
-        rng[v] = m.group(1)
-        if m.group(1) != comp or 'pt.%s+' % comp not in lets[v].replace('(', '') or 'boxsize.%s' % comp not in lets[v]:
-            ctx.report('R15.4', 'rootbox:%s:component' % v, where, 'root box coordinate %s mixes components: %s' % (v, lets[v]))
-    m = re.match(r'^\(\(\(k\*r\.N_root_([xyz])\)\+j\)\*r\.N_root_([xyz])\)\+i\)?$', lets['index'].strip('()') + ')') or \
-        re.match(r'^\(\(\(\(k\*r\.N_root_([xyz])\)\+j\)\*r\.N_root_([xyz])\)\+i\)$', lets['index'])
-    n += 1
-    where = 'src/particle.c reb_get_rootbox_for_particle'
-    if not m:
-        ctx.report('R15.4', 'rootbox:index:form', where, 'the flattened index is not (k*N_j + j)*N_i + i: %s' % lets['index'])
-    else:
-        sj, si = m.groups()
-        if sj != rng.get('j') or si != rng.get('i'):
-            ctx.report('R15.4', 'rootbox:index:strides', where,
-                       'the flattened index %s multiplies k by N_root_%s and (k,j) by N_root_%s, but j ranges over N_root_%s and i over N_root_%s: two different root boxes share one slot (and others are never used) unless the layout is square'
-                       % (lets['index'], sj, si, rng.get('j'), rng.get('i')))
-    samples.append('rootbox index %s' % lets['index'])
-    # same (i,j,k) in the tree root branch
-    f = tu.func('reb_tree_add_particle_to_cell')
-    tl = {}
-    for d in walk(cfront.body(f)):
-        if d.get('kind') == 'VarDecl' and 'init' in d and d['name'] in ('i', 'j', 'k'):
-            init = [c for c in d.get('inner', []) if c.get('kind') not in ('FullComment',)]
-            if init and 'floor' in render(init[-1]):
-                from . import extents as _ext
-                L_ = {k_: v_ for k_, v_ in _ext.lets(f).items() if k_ not in ('i', 'j', 'k', 'p', 'pt', 'node', 'particles')}
-                tl[d['name']] = _ext.resolve(render(init[-1]), L_).replace(' ', '')
-    for v in ('i', 'j', 'k'):
-        n += 1
-        a = lets[v].replace('pt.', 'p.')
-        b = tl.get(v, '')
-        core = lambda s: re.sub(r'\+r\.N_root_[xyz]\)', ')', s).replace('((', '(').replace('))', ')')
-        if re.sub(r'[()]', '', re.sub(r'\+r\.N_root_[xyz]', '', a)) != re.sub(r'[()]', '', b):
-            ctx.report('R15.4', 'rootbox:%s:sibling' % v, 'src/tree.c reb_tree_add_particle_to_cell / src/particle.c reb_get_rootbox_for_particle',
-                       'the root cell geometry computes %s = %s but the root box lookup computes %s' % (v, b, a))
-    ctx.covered('R15.3', 'octant encoder vs child-cell geometry (component, bit, side); root-box coordinates, mixed-radix strides and sibling agreement', n, floor=13, samples=samples)
+    # R15.4 root box index: decided on values, not on the spelling of the index arithmetic - the index function and the
+    # root-cell constructor are evaluated exactly on a family of layouts (unequal counts per axis, so mixed components and
+    # wrong strides show) and points (faces, root-box borders, interior): valid index, same cell, cell contains the point
+    from . import rootbox
+    rootbox.rule_root_box_of_point(ctx, 'R15.4')
+    ctx.covered('R15.3', 'octant encoder vs child-cell geometry (component, bit, side)', n, floor=6, samples=samples)
 
 
 def rule_step_order(ctx):
